@@ -566,7 +566,46 @@ def formats():
         [L.pair(L.pstr(a), L.pair(L.pstr(b), L.pstr(c))) for a, b, c in rows], "pstr * (pstr * pstr)")
 
 
+def sources():
+    """A digest of every function and method of the package (docstrings and formatting aside): the text the hand-written
+    model of that function was written against.  name = <module path under bandit>:<qualified name>."""
+    import hashlib
+    rows = []
+    for sub in ("core", "cli", "formatters", "plugins", "blacklists"):
+        base = os.path.join(REPO, "bandit", sub)
+        for fn in sorted(os.listdir(base)):
+            if not fn.endswith(".py"):
+                continue
+            tree = ast.parse(open(os.path.join(base, fn)).read())
+            mod = "%s.%s" % (sub, fn[:-3])
+
+            def visit(body, prefix):
+                for n in body:
+                    if isinstance(n, (ast.FunctionDef, ast.AsyncFunctionDef)):
+                        b = list(n.body)
+                        if b and isinstance(b[0], ast.Expr) and isinstance(b[0].value, ast.Constant) and isinstance(b[0].value.value, str):
+                            b = b[1:] or [ast.Pass()]
+                        m = ast.Module(body=[type(n)(name=n.name, args=n.args, body=b, decorator_list=n.decorator_list, returns=None, type_comment=None,
+                                                     **({"type_params": []} if hasattr(n, "type_params") else {}))], type_ignores=[])
+                        text = ast.unparse(ast.fix_missing_locations(m))
+                        rows.append((mod + ":" + prefix + n.name, hashlib.sha256(text.encode()).hexdigest()[:24]))
+                    elif isinstance(n, ast.ClassDef):
+                        visit(n.body, prefix + n.name + ".")
+            visit(tree.body, "")
+            # module-level statements other than imports, defs and docstrings (tables, compiled patterns, constants)
+            rest = [x for x in tree.body if not isinstance(x, (ast.FunctionDef, ast.AsyncFunctionDef, ast.ClassDef, ast.Import, ast.ImportFrom))
+                    and not (isinstance(x, ast.Expr) and isinstance(x.value, ast.Constant))]
+            if rest:
+                text = "\n".join(ast.unparse(x) for x in rest)
+                rows.append((mod + ":<module>", hashlib.sha256(text.encode()).hexdigest()[:24]))
+    return "Definition SRC : list (pstr * pstr) := %s.\n" % L.lst([L.pair(L.pstr(a), L.pstr(b)) for a, b in rows], "pstr * pstr")
+
+
 def main():
+    try:
+        write("Sources.v", sources())
+    except Exception as e:
+        stub("Sources.v", e)
     try:
         write("FormatFacts.v", formats())
     except Exception as e:
